@@ -62,23 +62,29 @@ def policy_ignores(profile, relpath):
 # ---- K: policy functions on structured symbolic paths ----------------------------------------
 C1 = ('', 'cat', 'eclass', 'licenses', 'metadata', 'profiles', 'eclas', 'metadata2')
 C2 = ('pkg', 'dtd', 'glsa', 'md5-cache', 'news', 'xml-schema', 'glsa2', 'md5-cach')
-C3 = ('cat', 'files', 'x-1.ebuild', 'metadata.xml', 'file', 'x.ebuild2')
-FNAMES = ('metadata.xml', 'x-1.ebuild', 'x.ebuildx', 'README', 'metadata.xm')
+C3 = ('cat', 'files', 'x-1.ebuild', 'metadata.xml')
+FNAMES = ('README', 'metadata.xml', 'x-1.ebuild', 'x.ebuildx', 'metadata.xm')
 
 
 def k_want_manifest(prof: int, depth: int, i1: int, i2: int, i3: int, free: str,
                     ndirs: int, f1: int, f2: int, usefree: bool):
     prof = sym.pick_index(prof, 3)
     depth = sym.pick_index(depth, 4) + 1
-    comps = [C1[sym.pick_index(i1, len(C1))], C2[sym.pick_index(i2, len(C2))],
-             C3[sym.pick_index(i3, len(C3))], 'deep'][:depth]
+    # only the components that exist at this depth are chosen (no forks on unused ones)
+    comps = [C1[sym.pick_index(i1, len(C1))]]
+    if depth >= 2:
+        comps.append(C2[sym.pick_index(i2, len(C2))])
+    if depth >= 3:
+        comps.append(C3[sym.pick_index(i3, len(C3))])
+    if depth >= 4:
+        comps.append('deep')
     if comps[0] == '' and depth > 1:
         return True, False
     if usefree:
         comps[-1] = 'z' + free          # a component no policy literal matches by accident
     relpath = '/'.join(comps)
-    dirnames = ['d%d' % i for i in range(sym.pick_index(ndirs, 3))]
-    filenames = [FNAMES[sym.pick_index(f1, len(FNAMES))], FNAMES[sym.pick_index(f2, len(FNAMES))]]
+    dirnames = ['d%d' % i for i in range(sym.pick_index(ndirs, 2))]
+    filenames = ['Makefile', FNAMES[sym.pick_index(f1, len(FNAMES))]]
     p = get_profile_by_name(PROFILES[prof])
     got = p.want_manifest_in_directory(relpath, list(dirnames), list(filenames))
     exp = policy_want_manifest(PROFILES[prof], relpath, dirnames, filenames)
@@ -87,7 +93,7 @@ def k_want_manifest(prof: int, depth: int, i1: int, i2: int, i3: int, free: str,
 
 def k_want_pre(prof: int, depth: int, i1: int, i2: int, i3: int, free: str, ndirs: int,
                f1: int, f2: int, usefree: bool):
-    return len(free) == 1 and free != '/' and 0 <= ndirs <= 2
+    return len(free) == 1 and free != '/' and 0 <= ndirs <= 1
 
 
 PATHS3 = ('cat/pkg/x-1.ebuild', 'cat/pkg/metadata.xml', 'cat/pkg/files/p.patch',
@@ -152,8 +158,15 @@ class Ctx:
     pass
 
 
-def s_repo(v):
+def make_repo(lite):
+    def s_repo(v):
+        return _s_repo(v, lite)
+    return s_repo
+
+
+def _s_repo(v, lite):
     c = Ctx()
+    c.lite = lite
     fs = c.fs = ModelFS(walk_fuel=200)
     c.profile = PROFILES[v.choice('profile', 3)]
     ebuild = v.bool('has_ebuild')
@@ -167,16 +180,16 @@ def s_repo(v):
         fs.add_file('cat/pkg/files/p.patch', size=1, digest='p')
     if not (ebuild or mxml or files):
         fs.add_file('cat/pkg/README', size=1, digest='r')
-    if v.bool('has_eclass'):
+    if c.lite or v.bool('has_eclass'):
         fs.add_file('eclass/e.eclass', size=4, digest='c')
     if v.bool('has_glsa'):
         fs.add_file('metadata/glsa/g.xml', size=5, digest='g')
         fs.add_file('metadata/glsa/timestamp.chk', size=1, digest='t')
     if v.bool('has_cache'):
         fs.add_file('metadata/md5-cache/cat/x-1', size=6, digest='h')
-    if v.bool('has_meta_ts'):
+    if c.lite or v.bool('has_meta_ts'):
         fs.add_file('metadata/timestamp', size=1, digest='T')
-    if v.bool('has_distfiles'):
+    if c.lite or v.bool('has_distfiles'):
         fs.add_file('distfiles/d.tar', size=9, digest='d')
     fs.add_file('profiles/categories', size=4, digest='k')
     fs.add_file('header.txt', size=2, digest='H')
@@ -251,7 +264,12 @@ def judge_create(c, out):
             if e.tag in ('IGNORE', 'MANIFEST', 'TIMESTAMP'):
                 continue
             full = posixpath.join(d, e.path)
-            if e.tag != policy_entry_type(prof, full):
+            want_tag = policy_entry_type(prof, full)
+            if want_tag == 'AUX' and not tree.cw_prefix(full, posixpath.join(d, 'files')):
+                # AUX means "files/<name> next to this Manifest": a package directory
+                # without a Manifest of its own cannot use it; plain DATA is equivalent
+                want_tag = 'DATA'
+            if e.tag != want_tag:
                 c.problems = [f'{full}: typed {e.tag}']
                 return False, True
             if sorted(e.checksums) != sorted(want_hashes):
@@ -285,17 +303,22 @@ def judge_create(c, out):
 def conditions(tier):
     cs = []
     for prof in range(3):
-        for depth in range(4):
+        for depth, i1 in [(0, None), (1, None)] + [
+                (d, i) for d in (2, 3)
+                for i in ((1, 4) if tier == 'quick' else range(1, len(C1)))]:
             fx = {'prof': prof, 'depth': depth}
+            if i1 is not None:
+                fx['i1'] = i1
             cs.append(Cond(
-                f'want_manifest_{PROFILES[prof]}_d{depth + 1}',
+                f'want_manifest_{PROFILES[prof]}_d{depth + 1}'
+                + ('' if i1 is None else f'_{C1[i1]}'),
                 specialise(k_want_manifest, **fx), specialise(k_want_pre, **fx),
                 timeout=600, group='K', twin=(prof != 0 and depth < 3),
                 descr='want_manifest_in_directory vs the policy table for a path of '
                       f'{depth + 1} components drawn from policy literals, near-misses and a '
                       'component with a free code point; symbolic file and directory lists',
-                bounds='components by symbolic choice (8x8x6) or "z"+<any code point>; 0-2 '
-                       'subdirectories; 2 file names out of 5'))
+                bounds='components by symbolic choice (8x8x4) or "z"+<any code point>; 0-1 '
+                       'subdirectories; one file name out of 5 next to a neutral one'))
         cs.append(Cond(f'entry_type_{PROFILES[prof]}', specialise(k_entry_type, prof=prof),
                        specialise(k_entry_type_pre, prof=prof), timeout=600, group='K',
                        twin=(prof == 2),
@@ -309,13 +332,16 @@ def conditions(tier):
     cs.append(Cond('loader_options', k_loader_options, None, timeout=120, group='K',
                    descr='profile defaults (hashes, sort, watermark, format) apply only where '
                          'the user gave none', bounds='all combinations of given/unset'))
+    lite = tier == 'quick'
     parts = [('profile', range(3)), ('has_ebuild', (False, True)),
-             ('has_metadata_xml', (False, True))]
+             ('has_metadata_xml', (False, True)), ('has_files', (False, True))]
+    if not lite:
+        parts += [('has_glsa', (False, True)), ('has_cache', (False, True))]
     for fx in partitions(parts):
-        nm = f'create_{PROFILES[fx["profile"]]}_e{int(fx["has_ebuild"])}' \
-             f'm{int(fx["has_metadata_xml"])}'
+        nm = f'create_{PROFILES[fx["profile"]]}_' + ''.join(
+            str(int(x)) for k, x in fx.items() if k != 'profile')
         cs.append(make_cond(
-            nm, s_repo, run_create, judge_create, fx, timeout=900, group='M-create',
+            nm, make_repo(lite), run_create, judge_create, fx, timeout=900, group='M-create',
             real=False, twin=False,
             descr='create (allow_create loader + update + save) with the profile on a '
                   'miniature repository with symbolic presence of its optional parts: '
@@ -324,7 +350,8 @@ def conditions(tier):
                   'plain under old-ebuild), and a default-profile loader verifies the result',
             bounds='cat/pkg/{x-1.ebuild,metadata.xml,files/p.patch}, eclass, metadata/{glsa,'
                    'md5-cache/cat,timestamp}, distfiles, profiles: presence bits symbolic; '
-                   'uncompressed sizes of two Manifests symbolic; hashes explicit or default'))
+                   'uncompressed sizes of two Manifests symbolic; hashes explicit or default'
+                   + ('; eclass, metadata/timestamp, distfiles always present' if lite else '')))
     return cs
 
 
